@@ -175,7 +175,7 @@ func checkC18(p *Prog, r *Report) {
 		if operand == nil {
 			r.fail("no type switch found in %s", funcName(cd))
 		} else {
-			cases := kt.checkSwitchCoverage(r, cd, operand, funcName(cd), []string{"[]string"}, "a value of that type is silently dropped from the copy")
+			cases := kt.checkSwitchCoverage(r, cd, operand, funcName(cd), []string{"[]string"}, "a value of that type is silently dropped from the copy", 20)
 			// each arm stores under the same key a value derived from the arm's binding (or a fresh copy of it)
 			checkCopyArms(p, r, cd, cases)
 		}
